@@ -29,3 +29,14 @@ def run(ctx):
         bfs = [("tr3", nb, 3), ("r0-2", r0, 2)]
         walks = [dict(label="walk-long", tags="", walks=20, plies=200, shards=28, undo_pct=35)]
     board_pipeline(ctx, bfs, walks)
+    # the incrementally maintained hash against the hash of the position rebuilt from text, in volume
+    from vlib import NCPU
+    shards = max(1, NCPU - 2)
+    res = ctx.pmap(lambda i: ctx.harness(["sweep-twin", "--seed", ctx.seed + 17, "--shard", i, "--walks", 150 if ctx.tier == "quick" else 3000, "--plies", 60]), list(range(shards)))
+    npos = 0
+    for r in res:
+        ctx.absorb(r)
+        if r["summary"]:
+            npos += r["summary"]["counts"].get("positions", 0)
+    ctx.cov["evaluations"] += npos
+    ctx.cov["steps"].append({"step": "incremental-vs-rebuilt hash sweep", "positions": npos})
